@@ -91,7 +91,9 @@ CLAIMED = {
         "mailboxes, joining, re-raising, saver got_exception) over atomic mailbox operations; TLC checks NoDeadlock, EveryoneStops, "
         "CallerOutcome (the original exception, never 'returned'), EagerCap and termination for every failure position, lazy and "
         "eager, all schedules (and that dropping the main thread's kill-all breaks them). The condition-variable layer underneath "
-        "is Mailbox.tla, bisimulated with the real Mailbox (C05). Code level: every (topology, stage, chunk) failure, saver close "
+        "is Mailbox.tla, bisimulated with the real Mailbox (C05); here it is extended by a killer thread (kill(upstream=True) at an "
+        "arbitrary moment): TLC checks that every sender / reader finds its way out (NoDeadlock, Termination, InOrder) and every edge of "
+        "the state graph is replayed lock-step on the real mailbox. Code level: every (topology, stage, chunk) failure, saver close "
         "failure, consumer failure / abandonment and the failure-free case run on both real processors - the threaded one under "
         "the deterministic scheduler for seeded random and priority-based schedules - and TLC judges every observation against "
         "PipelineObs.tla (original exception reaches the caller, no hang, no live threads, no silent truncation).",
